@@ -236,5 +236,10 @@ theorem step_refines (s s' : St) (e : Ev) (hI : RInv s) (h : step s e = some s')
         · simp at h; subst h; exact ⟨rfl, by simp⟩
         · simp at h
       · simp at h
+  | nilnext k =>
+    simp only [step] at h
+    split at h
+    · simp at h; subst h; exact ⟨rfl, by simp⟩
+    · simp at h
 
 end UtilModel.Keyed
